@@ -456,6 +456,15 @@ func (w *SessionWorld) Exec(f []string) string {
 			return "err"
 		}
 		return fmt.Sprintf("dst=%d", AddrIndex(ds[0].Dst))
+	case len(f) == 3 && f[0] == "setctr":
+		// move this end's send counter (what billions of packets would do)
+		r, ok := w.parseEp(f[1])
+		n, ok2 := u(f[2])
+		if !ok || !ok2 {
+			return "bad-op"
+		}
+		w.handle(r).VerifSetCount(n)
+		return "ok"
 	case len(f) == 4 && f[0] == "cwr":
 		// concurrent writers on one endpoint: every packet gets its own counter, nothing is lost
 		r, ok := w.parseEp(f[1])
